@@ -336,6 +336,12 @@ func resolveAliases(p *Prog) {
 						continue
 					}
 				} else if c.Type != r.Type {
+					// a variable or field whose representation changed (a map became an array, ...): only with a strong
+					// overlap of the functions that use it
+					if (c.Kind == "global" || c.Kind == "field") && jaccard(r.Refs, mapRefs(c)) >= 0.6 {
+						cands = append(cands, cand{r, c, jaccard(r.Refs, mapRefs(c)) - 0.05})
+						perRef[r]++
+					}
 					continue
 				}
 				cands = append(cands, cand{r, c, jaccard(r.Refs, mapRefs(c))})
